@@ -140,7 +140,9 @@ def _build_tablerow(case) -> tuple[str, dict, object, bool]:
     idx = R.segment(len(items), off or 0, lim)
     seg = [items[i] for i in idx]
     ncols = cols if cols is not None else len(seg)
-    asserted = ncols >= 1 or len(seg) == 0
+    # cols <= 0 (or a non-numeric cols, which counts as 0): there is no row break, so every visited item gets
+    # its own column of a single row - the only reading under which the helpers stay consistent with the items
+    asserted = True
     rows: list = []
     for pos, item in enumerate(seg):
         if ncols >= 1:
@@ -263,7 +265,7 @@ def _enumerate(ctx: core.Ctx, shard: int, nshards: int, tier: str) -> None:
                             continue
                         ctx.run({"kind": "for", "coll": {"t": t, "n": n}, "loops": [{"limit": lim, "offset": off, "rev": rev, "lform": form[0], "oform": form[1]}]})
             # tablerow: cols x limit x offset
-            for cols in [None, *range(1, n + 3)]:
+            for cols in [None, 0, -1, *range(1, n + 3)]:
                 for lim in vals:
                     for off in (vals if not quick else [None, 0, 1, n, -1]):
                         idx += 1
@@ -314,7 +316,7 @@ def finish_kwargs(ctx: core.Ctx, tier: str) -> dict:
         "rule": (
             f"Exhaustive: collections (list, range literal" + ("" if tier == "quick" else ", range variable, hash, string, nil, int")
             + f") of length 0..{maxn} x limit in {{absent, -3..len+3, 1e20}} x offset in the same set x reversed, "
-            "and tablerow with cols in {absent, 1..len+2}; plus random sequences of 1-3 loops sharing an "
+            "and tablerow with cols in {absent, 0, -1, 1..len+2}; plus random sequences of 1-3 loops sharing an "
             "offset:continue key, break/continue at a chosen index, a nested loop printing parentloop, and "
             "limit/offset/cols given as literal, int variable or numeric string. Every loop body prints item and "
             "all helpers; the whole output is compared with the reference model's. Non-trivial = limit or offset "
@@ -323,6 +325,6 @@ def finish_kwargs(ctx: core.Ctx, tier: str) -> dict:
         "exhaustive": True,
         "assumptions": [
             "offset:continue following a loop with a negative offset is not asserted (documented 'items to skip' and the reference's index arithmetic disagree)",
-            "tablerow with cols <= 0 is only required not to raise a non-Liquid exception",
+            "tablerow with cols <= 0 is expected to put every visited item in its own column of one row (col = position + 1, col_last never true)",
         ],
     }
